@@ -34,6 +34,7 @@ type report struct {
 	Files     []string       `json:"files"`
 	SyncFiles []string       `json:"sync_files"`
 	PVars     map[string]int `json:"pvars,omitempty"` // package var -> wrapped uses
+	PVarNames []string       `json:"pvar_names,omitempty"`
 	Notes     []string       `json:"notes,omitempty"`
 }
 
@@ -81,7 +82,10 @@ func main() {
 	for _, fn := range fns {
 		fmt.Fprintf(&tb, "\tTotals[%q] = %d\n", fn, rep.Machines[fn])
 	}
-	tb.WriteString("}\n")
+	for i, n := range rep.PVarNames {
+		fmt.Fprintf(&tb, "\tPVarName[%d] = %q\n", i, n)
+	}
+	tb.WriteString("}\n\nvar PVarName = map[int]string{}\n")
 	tot := filepath.Join(*out, "verifhook_totals.go")
 	if err := os.WriteFile(tot, tb.Bytes(), 0o644); err != nil {
 		die(err)
@@ -138,6 +142,15 @@ func instrumentDir(dir, out string, replace map[string]string, rep *report, pvar
 			fs = append(fs, x.f)
 		}
 		pinfo, err = analysePVars(fset, dir, fs)
+		if pinfo != nil {
+			base := len(rep.PVarNames)
+			for name, id := range pinfo.ids {
+				pinfo.ids[name] = id + base
+			}
+			for _, n := range pinfo.names {
+				rep.PVarNames = append(rep.PVarNames, filepath.Base(dir)+"."+n)
+			}
+		}
 		if err != nil {
 			rep.Notes = append(rep.Notes, "pvars analysis failed for "+dir+": "+err.Error())
 			pinfo = nil
